@@ -126,12 +126,20 @@ class Unit:
         return None
 
 
+def expand_includes(text, dirpath, depth=0):
+    def inc(m):
+        return expand_includes(open(os.path.join(dirpath, m.group(1))).read(), dirpath, depth + 1)
+    if depth > 5:
+        raise SpecError('include depth')
+    return re.sub(r'^@include\s+(\S+)\s*$', inc, text, flags=re.M)
+
+
 def load_all(dirpath):
     units = []
     for f in sorted(os.listdir(dirpath)):
         if f.endswith('.spec'):
             p = os.path.join(dirpath, f)
-            text = open(p).read()
+            text = expand_includes(open(p).read(), dirpath)
             m = re.search(r'^@params\s+(.*)$', text, re.M)
             if not m:
                 units.append(Unit(p, text))
